@@ -142,3 +142,13 @@ Proof.
   intros Hh. rewrite stored_nodes_full. rewrite <- IndexToPath_enumerates by exact Hh.
   do 2 f_equal. pose proof (all_nodes_length h). unfold fullT. unfold node in *. lia.
 Qed.
+
+(** * a sequence of calls: every answer is the specification's, whatever was asked before
+    (the model is a function; the correspondence ops with histories check that the code is one) *)
+Lemma IndexToPath_session h l : (h <= 30)%nat ->
+  Forall (fun i => 0 <= i < 2 ^ (Z.of_nat h + 1) - 1) l ->
+  map (IndexToPath (Z.of_nat h)) l = map (fun i => Some (spec_index_to_path h i)) l.
+Proof.
+  intros Hh HF. apply map_ext_in. intros i Hi. rewrite Forall_forall in HF. specialize (HF i Hi).
+  rewrite spec_index_to_path_eq by exact HF. now apply IndexToPath_node_at.
+Qed.
